@@ -31,10 +31,14 @@
 #include "configuration.h"
 #include "message.h"
 
+#include <fcntl.h>
 #include <limits.h>
 #include <stdio.h>
 #include <stdlib.h>
 #include <string.h>
+#include <sys/stat.h>
+#include <sys/types.h>
+#include <unistd.h>
 
 
 
@@ -55,8 +59,10 @@ int snoopy_output_fileoutput (char const * const logMessage, char const * const 
 {
     char   filePathBuf[PATH_MAX] = {'\0'};
     char * filePath = filePathBuf;
-    FILE  *fp;
-    int    charCount;
+    int     fd;
+    char   *record;
+    size_t  recordLength;
+    ssize_t charCount;
 
     // Check if output file is properly configured
     if (0 == strcmp(arg, "")) {
@@ -66,14 +72,34 @@ int snoopy_output_fileoutput (char const * const logMessage, char const * const 
     // Parse the output file specification (i.e. for %{datetime} or similar tags)
     snoopy_message_generateFromFormat(filePath, PATH_MAX, PATH_MAX, arg);
 
+    // Assemble the whole record (message + newline) first
+    recordLength = strlen(logMessage) + 1;
+    record       = malloc(recordLength);
+    if (NULL == record) {
+        return SNOOPY_OUTPUT_FAILURE;
+    }
+    memcpy(record, logMessage, recordLength - 1);
+    record[recordLength - 1] = '\n';
+
     // Try to open file in append mode
-    fp = fopen(filePath, "a");
-    if (NULL == fp) {
+    fd = open(filePath, O_WRONLY | O_CREAT | O_APPEND, S_IRUSR | S_IWUSR | S_IRGRP | S_IWGRP | S_IROTH | S_IWOTH);
+    if (-1 == fd) {
+        free(record);
         return SNOOPY_OUTPUT_FAILURE;
     }
 
-    // Try to print to file
-    charCount = fprintf(fp, "%s\n", logMessage);
-    fclose(fp);
-    return charCount;
+    /*
+     * Emit the record with a single write() on the O_APPEND descriptor.
+     *
+     * Going through stdio split records larger than its buffer (4 KiB) into
+     * several write() calls, and concurrent writers to the same log file then
+     * got their records interleaved.
+     */
+    charCount = write(fd, record, recordLength);
+    close(fd);
+    free(record);
+    if (charCount < 0) {
+        return SNOOPY_OUTPUT_FAILURE;
+    }
+    return (int) charCount;
 }
